@@ -37,7 +37,25 @@ HasManifest(s, d) == \E m \in MfSet(s) : m.ok /\ m.reg /\ Dir(m.p) = d
 MfIn(s, d) == { m \in MfSet(s) : m.ok /\ m.reg /\ Dir(m.p) = d }
 ClassOf(r, f) == LET c == { x \in SeqSet(r.fclass) : x[1] = f } IN IF c = {} THEN "other" ELSE (CHOOSE x \in c : TRUE)[2]
 
+(* a later `gemato update -p <profile>` (possibly another profile than the one that created the tree): *)
+(* only what the updating profile is responsible for is judged                                         *)
+UpdateClauses(r) ==
+    IF r.end # "ok" THEN {"C19.UpdateFailed"} ELSE
+    LET s == r.s1  W == SeqSet(r.written) IN
+    (IF r.profile = "old-ebuild" /\ \E m \in MfSet(s) : m.ok /\ m.reg /\ m.p \in W /\ m.comp # "plain" /\
+           \E e \in Ents(m) : e.tag = "EBUILD"
+     THEN {"C19.PackageManifestCompressed"} ELSE {})
+    \cup (IF \E m \in MfSet(s) : m.p = s.top /\ m.comp # "plain" THEN {"C19.TopCompressed"} ELSE {})
+    \cup (IF r.profile = "old-ebuild" /\ \E m \in MfSet(s) : m.ok /\ m.reg /\ \E e \in Ents(m) :
+              /\ e.tag \in {"DATA", "EBUILD", "MISC", "AUX"}
+              /\ Full(m, e) \in SeqSet(r.newfiles)
+              /\ e.tag # EntryTag(r.profile, RoleOf(r, Dir(Full(m, e))), ClassOf(r, Full(m, e)))
+           THEN {"C19.WrongEntryType"} ELSE {})
+    \cup (IF ~MatchesStrict(s, <<>>) THEN {"C19.NotVerifyingAfterUpdate"} ELSE {})
+    \cup (IF r.verify_after # "ok" THEN {"C19.PlainLoaderRejects"} ELSE {})
+
 Clauses(r) ==
+    IF r.mode = "update" THEN UpdateClauses(r) ELSE
     IF r.end # "ok" THEN {"C19.CreateFailed"} ELSE
     LET s == r.s1  hs == SeqSet(r.hashes)
         \* with a pre-existing (adopted) Manifest the placement / typing of what was there before is
